@@ -968,6 +968,9 @@ class Proc:
         self.renderer.store.mkdir(parents=True, exist_ok=True)
         cfg = self.renderer.build(op['root'], op['render'])
         ST.active = True
+        if op.get('prechain'):
+            # the caller has already built a (parameter-mode) chain from this very config object
+            cfg.chain()
         target = self.stores / op['target']
         buf = io.StringIO()
         try:
